@@ -93,6 +93,9 @@ func kindDepth(t types.Type, d int) bkind {
 			return kObj
 		}
 	case *types.Pointer:
+		if b, ok := u.Elem().Underlying().(*types.Basic); ok && b.Kind() == types.Uint8 {
+			return kSlice // *byte: a one-element view of the memory it points into
+		}
 		switch kindDepth(u.Elem(), d+1) {
 		case kArr, kSlice:
 			return kSlice
@@ -128,6 +131,9 @@ func isByteElem(t types.Type) bool {
 		b, ok := u.Elem().Underlying().(*types.Basic)
 		return ok && b.Kind() == types.Uint8
 	case *types.Pointer:
+		if b, ok := u.Elem().Underlying().(*types.Basic); ok && b.Kind() == types.Uint8 {
+			return true
+		}
 		if a, ok := u.Elem().Underlying().(*types.Array); ok {
 			b, ok := a.Elem().Underlying().(*types.Basic)
 			return ok && b.Kind() == types.Uint8
@@ -213,6 +219,8 @@ func (n *node) coq(b *strings.Builder) {
 		fmt.Fprintf(b, "SStore %d %d", n.r, n.v)
 	case "bind":
 		fmt.Fprintf(b, "SBind %d %d", n.r, n.v)
+	case "storeobj":
+		fmt.Fprintf(b, "SStoreObj %d %d", n.r, n.v)
 	case "escape":
 		fmt.Fprintf(b, "SEscape %d", n.v)
 	case "ret", "skip":
@@ -320,7 +328,7 @@ func (n *node) calls() int {
 
 func (n *node) canFail() bool {
 	switch n.op {
-	case "set", "write", "append", "copy", "store", "escape":
+	case "set", "write", "append", "copy", "store", "storeobj", "escape":
 		return true
 	}
 	for _, k := range n.kids {
@@ -466,7 +474,7 @@ func (a *analyzer) run(n *node, st astate) (astate, astate) {
 		st[n.r] = get(n.v)
 	case "copy":
 		a.check(get(n.r), n, false)
-	case "store":
+	case "store", "storeobj":
 		xr, vr := get(n.r), get(n.v)
 		for p := 0; p < a.np; p++ {
 			if xr&(1<<uint(p)) != 0 {
@@ -490,6 +498,9 @@ func (a *analyzer) run(n *node, st astate) (astate, astate) {
 			a.check(vr, n, true)
 		}
 		st[n.r] = xr | vr&^sharedBit
+		if n.op == "storeobj" && n.r != n.v && n.v >= 0 && n.v < len(st) {
+			st[n.v] = opaqueBit | sharedBit // the stored object register is dead: x speaks for the object now
+		}
 	case "bind":
 		if n.r != n.v {
 			st[n.r] = get(n.r) | get(n.v)
